@@ -18,6 +18,8 @@ def _scenario(job):
     (flex, src, work, idx, seed, fam, cap) = job
     rng = random.Random(seed)
     rs, cfg, casegen = rtcheck.FAMILIES[fam](rng)
+    if cfg.backend == 'cxx':
+        cfg.backend = 'nr'     # the faults are injected through the C API's input and allocation hooks
     cfg.stdio = True
     cfg.yylmax = None      # known finding F28 makes "token too large" depend on where reads end (EINTR moves them)
     cfg.ledger = True
